@@ -55,6 +55,14 @@ theorem C06_world_kept_nodup (j : Job) (wf : j.WF) (q : Nat) (st : RankState) (h
   obtain ⟨us, _, hk, _, _, hnd, _⟩ := keptOf_spec j wf.chunk wf.leaves wf.paths q st hq
   exact ⟨_, hk, hnd⟩
 
+/-- **C06, whole job: replicated bytes are written once.** Summed over all ranks, the replicated payload bytes
+written equal the bytes of ONE copy of the replicated units, not world-size times it, for every partition. -/
+theorem C06_world_replicated_bytes_once (j : Job) (wf : j.WF) (st0 : RankState) (h0 : j.states[0]? = some st0)
+    (us0 : List ((PathId × Leaf) × List (WReq UnitId × Bytes))) (hus0 : rankUnits j.cfg st0 = .ok us0) :
+    ((List.range j.states.length).map (repBytesOfRank j)).sum
+      = (((flat us0).filter (fun x => j.rep x.1.path.1)).map (fun x => x.2.length)).sum :=
+  world_replicated_bytes_once j wf st0 h0 us0 hus0
+
 /-! ## Non-vacuity: a concrete two-rank job with a chunked replicated tensor split across the ranks -/
 private def tA : Ts.Serial.Tensor := ⟨"float32", [3, 2], List.range 24⟩
 private def tB : Ts.Serial.Tensor := ⟨"bfloat16", [3], [1, 2, 3, 4, 5, 6]⟩
